@@ -4,7 +4,8 @@ P=$1; NAME=$2; DEMO="$3"
 WT=/tmp/wt_$P; SD=/tmp/seed_$P; OUT=/verif/seeded/$NAME
 export CARGO_INCREMENTAL=0 CARGO_PROFILE_DEV_DEBUG=0 CARGO_PROFILE_TEST_DEBUG=0 CARGO_NET_OFFLINE=true
 mkdir -p $OUT; cp $SD/patch.diff $OUT/patch.diff; cp $SD/*.rs $SD/*.glu $SD/README.md $OUT/ 2>/dev/null
-cp $SD/seed_$P.rs $WT/tests/ 2>/dev/null
+# the demo goes to tests/ unless the adversary left it elsewhere in the worktree (e.g. completion/tests/, check/tests/)
+if [ -z "$(find $WT -name seed_$P.rs -not -path '*/target/*' | grep -v "^$WT/tests/")" ]; then cp $SD/seed_$P.rs $WT/tests/ 2>/dev/null; else rm -f $WT/tests/seed_$P.rs; fi
 cd $WT && git checkout -q -- . && git apply $SD/patch.diff || { echo "patch does not apply" > $OUT/suite_with_change.log; exit 1; }
 cargo test --workspace --no-fail-fast --offline 2>&1 | grep -E "test result|FAILED|failed" | grep -v "test result: ok" > $OUT/suite_with_change.log
 ( eval "$DEMO" ) 2>&1 | grep -E "^test |test result" > $OUT/demo_with_change.log
